@@ -11,6 +11,12 @@ CLAIMED = {
          "TLA+ Enc as oracle; TLC validates recorded encoder events; MC of the varint writer machine"),
  "C03": ("5.C03", "Decoder outcomes (accept/reject, value, consumed, error kind) of the real code validated by TLC against Wire!Dec for prefixes, substitutions, re-paddings, adversarial lengths, random bytes, and exhaustive/sampled byte strings for the 16-bit decoders; reader-loop machine model-checked equivalent to the functional acceptance rule.",
          "TLA+ Dec as total oracle; TLC validates recorded decode events incl. exhaustive 16-bit batches"),
+ "C08": ("5.C08", "Accumulator.tla (feed_ref's five branches as a step function) model-checked in an environment that feeds any chunk in any state, restricted to streams whose segments fit (no OverFull reachable; one result per zero; conservation; frame result = isolated decode); every edge of the unrestricted graphs replayed on the real CobsAccumulator<N> through the state hook under two stale-buffer regimes and feed/feed_ref; long random and exhaustively chunked streams validated step by step by TLC with a ghost current-segment.",
+         "TLA+ accumulator model + TLC; every model edge replayed on the implementation; stream traces validated with ghost state"),
+ "C09": ("5.C09", "Same model without the fit restriction: IdxBound, InitAfterZero, OverflowReported, Resync as per-edge obligations, Progress as an action property (well-founded measure) and <>drain under fairness on the smallest instance; the same edge replay and stream traces judged on the over-long/garbage steps, plus panics, index bound and loop-iteration bound everywhere.",
+         "TLA+ accumulator model + TLC (safety, progress measure, liveness on N=2); edge replay; stream traces"),
+ "C13": ("5.C13", "fixle/fixbe shapes in Wire.tla; MC_Fix checks the entire 16-bit domain and structured wider values; recorded events for the whole 16-bit domain of u16/i16 x le/be, single-byte-nonzero/extreme/random values for all 8 types through all entry pairings, truncations, and a derived struct with #[serde(with)] validated by TLC.",
+         "TLA+ Enc/Dec for fixed-width shapes; TLC validates recorded adapter events (exhaustive for 16 bits)"),
 }
 PENDING = "check under construction in this session (see DESIGN.md section 8 for the order of construction)"
 m = {
